@@ -1240,5 +1240,34 @@ func emitConsts(root, outDir string) error {
 		b.WriteString("].\n")
 	}
 	fmt.Fprintf(&b, "Definition block_size : nat := %s.\n", "512")
+	// the connection pool of the index store (internal/persisters/sqlite.go, the pure-Go build): every
+	// <db>.Set...Conns(<literal>) call of SQLite.Open, in source order
+	pool := [][2]string{}
+	if f, err := parser.ParseFile(token.NewFileSet(), filepath.Join(root, "internal/persisters/sqlite.go"), nil, 0); err == nil {
+		ast.Inspect(f, func(n ast.Node) bool {
+			ce, ok := n.(*ast.CallExpr)
+			if !ok {
+				return true
+			}
+			se, ok := ce.Fun.(*ast.SelectorExpr)
+			if !ok || !strings.HasPrefix(se.Sel.Name, "Set") || !strings.HasSuffix(se.Sel.Name, "Conns") || len(ce.Args) != 1 {
+				return true
+			}
+			v := "?"
+			if bl, ok := ce.Args[0].(*ast.BasicLit); ok {
+				v = bl.Value
+			}
+			pool = append(pool, [2]string{se.Sel.Name, v})
+			return true
+		})
+	}
+	b.WriteString("Definition index_store_pool : list (string * string) := [")
+	for i, r := range pool {
+		if i > 0 {
+			b.WriteString("; ")
+		}
+		fmt.Fprintf(&b, "(%s, %s)", q(r[0]), q(r[1]))
+	}
+	b.WriteString("].\n")
 	return os.WriteFile(filepath.Join(outDir, "Consts.v"), []byte(b.String()), 0o644)
 }
